@@ -483,6 +483,11 @@ def annotate(
 
     result = 0
     for path in paths:
+        if path.is_dir():
+            # all_paths() turned FILE into FILE.license, which is a directory.
+            click.echo(_("Error: '{path}' is a directory").format(path=path))
+            result += 1
+            continue
         binary = is_binary(str(path))
         if binary or is_uncommentable(path) or force_dot_license:
             new_path = _determine_license_suffix_path(path)
